@@ -16,6 +16,7 @@ use routee_compass::plugin::input::default::vertex_rtree::plugin::RTreePlugin;
 use routee_compass::plugin::input::input_plugin::InputPlugin;
 use routee_compass_core::model::unit::Distance;
 use serde_json::{json, Map, Value};
+use std::sync::Arc;
 
 const UNIT_NAMES: [&str; 5] = ["meters", "kilometers", "miles", "inches", "feet"];
 
@@ -131,7 +132,23 @@ fn vertex_case(rng: &mut Rng, rep: &mut Report, big: bool) {
         remove_dir(&dir);
         return;
     }
-    let plugin = catch(|| RTreePlugin::new(&vp, tol.map(|t| Distance::new(t.0)), tol.and_then(|t| t.1).map(|u| U::DISTANCE_UNITS[u])));
+    // half of the matchers are built from configuration parameters by the real builder (where an omitted unit has to mean
+    // the documented default, meters), the others directly
+    let via_builder = rng.chance(0.5);
+    let plugin: Result<Result<Arc<dyn InputPlugin>, String>, String> = if via_builder {
+        use routee_compass::app::compass::config::builders::InputPluginBuilder;
+        use routee_compass::plugin::input::default::vertex_rtree::builder::VertexRTreeBuilder;
+        let mut params = json!({"type": "vertex_rtree", "vertices_input_file": vp.to_string_lossy()});
+        if let Some((t, u)) = tol {
+            params["distance_tolerance"] = json!(t);
+            if let Some(u) = u {
+                params["distance_unit"] = json!(UNIT_NAMES[u]);
+            }
+        }
+        catch(|| VertexRTreeBuilder {}.build(&params).map_err(|e| e.to_string()))
+    } else {
+        catch(|| RTreePlugin::new(&vp, tol.map(|t| Distance::new(t.0)), tol.and_then(|t| t.1).map(|u| U::DISTANCE_UNITS[u])).map(|p| Arc::new(p) as Arc<dyn InputPlugin>).map_err(|e| e.to_string()))
+    };
     remove_dir(&dir);
     let settings = json!({"vertices": if n <= 60 { json!(pts) } else { json!(n) }, "tolerance": tol.map(|t| json!([t.0, t.1.map(|u| UNIT_NAMES[u])]))});
     let plugin = match plugin {
@@ -346,16 +363,44 @@ fn edge_case(rng: &mut Rng, rep: &mut Report, big: bool) {
     } else {
         RoadClassParser::default()
     };
-    let plugin = catch(|| {
-        EdgeRtreeInputPlugin::new(
-            if with_classes { Some(cp.to_string_lossy().to_string()) } else { None },
-            if with_vehicle { Some(rp.to_string_lossy().to_string()) } else { None },
-            gp.to_string_lossy().to_string(),
-            tol.map(|t| Distance::new(t.0)),
-            tol.and_then(|t| t.1).map(|u| U::DISTANCE_UNITS[u]),
-            parser,
-        )
-    });
+    // half of the matchers are built from configuration parameters by the real builder, the others directly
+    let via_builder = rng.chance(0.5);
+    let plugin: Result<Result<Arc<dyn InputPlugin>, String>, String> = if via_builder {
+        use routee_compass::app::compass::config::builders::InputPluginBuilder;
+        use routee_compass::plugin::input::default::edge_rtree::edge_rtree_input_plugin_builder::EdgeRtreeInputPluginBuilder;
+        let mut params = json!({"type": "edge_rtree", "geometry_input_file": gp.to_string_lossy()});
+        if with_classes {
+            params["road_class_input_file"] = json!(cp.to_string_lossy());
+        }
+        if with_vehicle {
+            params["vehicle_restriction_input_file"] = json!(rp.to_string_lossy());
+        }
+        if let Some((t, u)) = tol {
+            params["distance_tolerance"] = json!(t);
+            if let Some(u) = u {
+                params["distance_unit"] = json!(UNIT_NAMES[u]);
+            }
+        }
+        if with_mapping {
+            let m: Map<String, Value> = CLASS_NAMES.iter().enumerate().map(|(i, nm)| (nm.to_string(), json!(i))).collect();
+            params["road_class_parser"] = json!({ "mapping": m });
+        }
+        let _ = &parser;
+        catch(|| EdgeRtreeInputPluginBuilder {}.build(&params).map_err(|e| e.to_string()))
+    } else {
+        catch(|| {
+            EdgeRtreeInputPlugin::new(
+                if with_classes { Some(cp.to_string_lossy().to_string()) } else { None },
+                if with_vehicle { Some(rp.to_string_lossy().to_string()) } else { None },
+                gp.to_string_lossy().to_string(),
+                tol.map(|t| Distance::new(t.0)),
+                tol.and_then(|t| t.1).map(|u| U::DISTANCE_UNITS[u]),
+                parser,
+            )
+            .map(|p| Arc::new(p) as Arc<dyn InputPlugin>)
+            .map_err(|e| e.to_string())
+        })
+    };
     remove_dir(&dir);
     let settings = json!({"geometries": if n <= 50 { json!(geoms) } else { json!(n) }, "classes": if with_classes && n <= 50 { json!(classes) } else { json!(with_classes) }, "vehicle_rows": if n <= 50 { json!(veh_rows) } else { json!(veh_rows.len()) }, "tolerance": tol.map(|t| json!([t.0, t.1.map(|u| UNIT_NAMES[u])]))});
     let plugin = match plugin {
